@@ -17,6 +17,7 @@ use std::sync::atomic::{AtomicBool, AtomicU64, Ordering};
 use std::time::Instant;
 
 pub mod child;
+pub mod linear;
 
 #[derive(Clone, Copy, Debug, PartialEq, Eq)]
 pub enum Tier {
